@@ -82,7 +82,8 @@ Print Assumptions C17_fresh_client.
     limit floor(N/2)+1 grows by more than one at that step *)
 Theorem C17_window_lower_end : forall g now h,
   match update_client (g_st g) now h with
-  | Some st' => g_st (gstep g (now, h)) = st' /                g_lo (gstep g (now, h)) = N.max (g_lo g) (h_num h + 1 - seal_limit st')
+  | Some st' => g_st (gstep g (now, h)) = st' /\
+                g_lo (gstep g (now, h)) = N.max (g_lo g) (h_num h + 1 - seal_limit st')
   | None => gstep g (now, h) = g
   end.
 Proof. exact g_lo_step. Qed.
